@@ -207,9 +207,14 @@ func runJoinBubble(js joinScenario) result {
 					return
 				}
 			} else {
-				for i := range s {
-					s[i] = scribble
+				// (the whole capacity: what an append by the consumer may write to)
+				full := s[:cap(s)]
+				for i := range full {
+					full[i] = scribble
 				}
+				log.mu.Lock()
+				log.outs[emIdx].kept = full
+				log.mu.Unlock()
 			}
 			if !sleepOrQuit(pause, quit) {
 				return
